@@ -4,7 +4,7 @@ import lib, proxygen as pg, proxyflows as pf, proxycheck as pc
 
 class C03:
     id = "C03"
-    rule = ('random whole-proxy scenarios over the decision table {no Route, own Route only, own+next, next only, near miss+next} x {To host: exact static route, wildcard, only default, none} x {Request-URI: service literal, regex-only, user@host, urn/tel, listener address:port, foreign} x keep-next-hop-route x {UDP, TCP, unsupported next-hop transport}; absence of a second destination is checked behind the barrier. Non-trivial = a request was relayed; distinct by content hash.')
+    rule = ('random whole-proxy scenarios over the decision table {no Route, own Route only, own+next, next only, near miss+next} x {To host: exact static route, wildcard, only default, none} x {Request-URI: service literal, regex-only, user@host, urn/tel, listener address:port, foreign} x keep-next-hop-route x {UDP, TCP, unsupported next-hop transport}; absence of a second destination is checked behind the barrier; one scenario in eight changes the set of backends through the real resolver path while requests, answers and in-dialog requests go on. Non-trivial = a request was relayed; distinct by content hash.')
     trusted = ["UDP/TCP loopback delivery is synchronous and ordered per socket (the barrier argument of DESIGN 3.1); "
                "real DNS is not involved: hosts are IPv4 literals or names of the configured host table"]
     assumptions = ['Route and To URIs are sip: URIs (others: outside the stated domain, accepted)', 'service-name patterns within the regular-expression subset of Rx.v']
@@ -18,7 +18,12 @@ class C03:
         hist = {}
         for i in range(n):
             opts = self.opts(rng, i)
-            f = pf.random_scenario(rng, blocks[i], opts, n_events=rng.randrange(3, 10))
+            if i % 8 == 7:
+                # the set of backends changes while traffic goes on: "a backend" means one registered at that moment
+                f = pf.membership_history(rng, blocks[i])
+                opts = {"membership": True}
+            else:
+                f = pf.random_scenario(rng, blocks[i], opts, n_events=rng.randrange(3, 10))
             c = f.s.case("g%d" % i, {"kind": "generated", "opts": {k: str(v) for k, v in opts.items() if k != "weights"}})
             cases.append(c)
             for k in opts.get("weights", {}):
